@@ -476,18 +476,36 @@ fn apply(t: &mut Sink, m: &mut SM, op: &WOp, seq_no: usize, stats: &mut Stats) -
             let c = t.chunk_mut();
             let cl = c.len();
             let n = (*k).min(cl);
-            match seq_no % 3 {
+            // every Index impl of UninitSlice (RangeTo, Range, RangeFrom, RangeFull, RangeInclusive, RangeToInclusive)
+            match (seq_no + *k) % 6 {
                 0 => {
                     for i in 0..n {
                         c.write_byte(i, bytes[i]);
                     }
                 }
                 1 => c[..n].copy_from_slice(&bytes[..n]),
-                _ => {
+                2 => {
                     // two halves through sub-range indexing
                     let h = n / 2;
                     c[..h].copy_from_slice(&bytes[..h]);
                     c[h..n].copy_from_slice(&bytes[h..n]);
+                }
+                3 => {
+                    let h = n / 2;
+                    c[..][..h].copy_from_slice(&bytes[..h]);
+                    c[h..][..n - h].copy_from_slice(&bytes[h..n]);
+                }
+                4 => {
+                    if n > 0 {
+                        c[0..=n - 1].copy_from_slice(&bytes[..n]);
+                    }
+                }
+                _ => {
+                    if n > 0 {
+                        let h = n / 2;
+                        c[..=n - 1][h..].copy_from_slice(&bytes[h..n]);
+                        c[..=n - 1][..h].copy_from_slice(&bytes[..h]);
+                    }
                 }
             }
             unsafe { t.advance_mut(n) };
